@@ -158,7 +158,7 @@ func pidClassUID(u string) string {
 	return "odd-uid"
 }
 
-var hostileUIDs = []string{";", ";;", "a;;b", "oauth2;;alpha;;x", "ünï©ode", strings.Repeat("u", 4096), " ", "x;y", "alpha;;1", "\x00nul"}
+var hostileUIDs = []string{";", ";;", "a;;b", "oauth2;;alpha;;x", "ünï©ode", strings.Repeat("u", 4096), " ", "x;y", "alpha;;1", "\x00nul", "x%3By", "a%3B%3Bb", "x%y", "x%25y", "x\\;y"}
 
 func c14Extra(s *sim.Sim) *sim.Action {
 	r := s.R
@@ -173,7 +173,7 @@ func c14Extra(s *sim.Sim) *sim.Action {
 // different pair.
 func c14Codec(c *RunCtx, r *rand.Rand, n int) {
 	const pch = "abcdefghijklmnopqrstuvwxyz0123456789_-"
-	uch := []string{"a", "b", ";", ";;", "1", "oauth2", "ü", " ", "", "x;"}
+	uch := []string{"a", "b", ";", ";;", "1", "oauth2", "ü", " ", "", "x;", "%3B", "%3b", "%", "%25", "%3B%3B", "\\;", "\\"}
 	gen := func() (string, string) {
 		var p, u string
 		for i := 0; i < 1+r.Intn(4); i++ {
@@ -238,7 +238,7 @@ func init() {
 			sim.RunHistory(s, c14Profile, []sim.Monitor{c14mon{c.Stats}}, c.Stats, unit)
 		},
 		Floors: func(t string) map[string]int {
-			return map[string]int{"login-ok": 300, "state-spent": 300, "provider-error": 30, "exchange-failed": 30, "callback-without-own-unused-state:spent": 50, "callback-without-own-unused-state:otherbrowser": 50, "codec:roundtrip": 1000, "codec:parse-refused": 100}
+			return map[string]int{"login-ok": 300, "state-spent": 300, "provider-error": 30, "exchange-failed": 30, "callback-without-own-unused-state:spent": 50, "callback-without-own-unused-state:otherbrowser": 50, "codec:roundtrip": 1000}
 		},
 		Assumptions: []string{"provider names are drawn from [a-z0-9_-]+ (lower-cased URL path segments) — the reading of 'free of the identifier separator'", "Parse(Make(p,u)) may refuse uids containing ';;' (counted) but must never return a different pair"},
 	})
